@@ -420,12 +420,15 @@ async def do_request(api, world, name, oi, op):
         body_bytes = reqbody_for(token, body["len"]) if "len" in body else _b(body["data"])
         content = api.make_body(body_bytes, body.get("chunks"), body.get("oneshot", True))
     ext = {}
+    if op.get("target") is not None and op.get("ext_order") == "target-first":
+        # the order of the keys of the caller's extensions dict is the caller's business
+        ext["target"] = _b(op["target"])
     if op.get("timeouts") is not None:
         ext["timeout"] = dict(op["timeouts"])
     for k in ("sni_hostname",):
         if op.get(k) is not None:
             ext[k] = op[k]
-    if op.get("target") is not None:
+    if op.get("target") is not None and "target" not in ext:
         ext["target"] = _b(op["target"])
     if op.get("trace"):
         ext["trace"] = world.make_trace(name, token, api.sync)
